@@ -193,16 +193,27 @@ def check_value(op, got, st):
     return 'error-exceeds-bound', err, tol
 
 
-def run_plain(op, reduce, xs, key_mapper=None):
+def _subscribe(obs, n):
+    """Short inputs are subscribed twice on the same observable; the second outcome is kept for comparison."""
     sink = RawSink()
-    sink.subscribe_to(rx.from_(xs).pipe(build(op, reduce, key_mapper)))
+    sink.subscribe_to(obs)
+    if n <= 4:
+        sink.second = RawSink()
+        sink.second.subscribe_to(obs)
     return sink
+
+
+def second_differs(s):
+    b = getattr(s, 'second', None)
+    return b is not None and s.error is None and (repr(s.items) != repr(b.items) or s.completed != b.completed or type(b.error) is not type(s.error))
+
+
+def run_plain(op, reduce, xs, key_mapper=None):
+    return _subscribe(rx.from_(xs).pipe(build(op, reduce, key_mapper)), len(xs))
 
 
 def run_mux(op, reduce, xs):
-    sink = RawSink()
-    sink.subscribe_to(rx.from_(xs).pipe(rs.state.with_memory_store([build(op, reduce)])))
-    return sink
+    return _subscribe(rx.from_(xs).pipe(rs.state.with_memory_store([build(op, reduce)])), len(xs))
 
 
 def check_seq(xs, acc, ops, label, out, seen, streaming_limit=None, runner=run_plain, steps=None):
@@ -217,6 +228,8 @@ def check_seq(xs, acc, ops, label, out, seen, streaming_limit=None, runner=run_p
             acc.evals += 1
             acc.events += n + 1
             acc.traces += 1
+            if second_differs(s):
+                _rep(out, seen, op, 'second-subscription-differs', {'input': label, 'first': repr(s.items), 'second': repr(s.second.items)})
             if s.error is not None or s.completed != 1 or len(s.items) != n:
                 _rep(out, seen, op, 'streaming-emits-%d-values-for-%d-items' % (len(s.items), n) if s.error is None else 'streaming-error',
                      {'input': label, 'error': repr(s.error)})
@@ -240,6 +253,8 @@ def check_seq(xs, acc, ops, label, out, seen, streaming_limit=None, runner=run_p
         acc.evals += 1
         acc.events += n + 1
         acc.traces += 1
+        if second_differs(r):
+            _rep(out, seen, op, 'second-subscription-differs', {'input': label, 'first': repr(r.items), 'second': repr(r.second.items)})
         if r.error is not None or r.completed != 1 or len(r.items) != 1:
             _rep(out, seen, op, 'reduce-emits-%d-values' % len(r.items) if r.error is None else 'reduce-error', {'input': label, 'error': repr(r.error)})
             continue
